@@ -229,7 +229,8 @@ CHECKS = {
              "'...' vs \"...\" and the triple-quoted forms at any indentation read as the same string under the C04 guards (quote_style_irrelevant, multiline_form_irrelevant); thin models "
              "of for_target_def.collect and label.collect give header_spelling_irrelevant and label_marker_irrelevant. NOT proved: that the ANTLR parser and the compiler map equal token "
              "sequences with equal literal values to equal ops - the parser is not modelled. That step is covered by search only: quick 100 programs x 8 renderings, thorough 5000 x 20 "
-             "(layout styles x re-spelling dimensions int/dec/str/label/header/comma/pos), all compiled by the real compiler and compared field by field (ops incl. offsets and "
+             "(layout styles x re-spelling dimensions int/dec/str/label/header/comma/pos; every program is enriched with decimals of both signs in every integer-like slot, "
+             "strings and marker names containing quotes in every string slot incl. import paths, negative integers), all compiled by the real compiler and compared field by field (ops incl. offsets and "
              "position-mark fields, routine infos, coroutine names, source map up to positions); violations are attributed to one dimension and shrunk.",
         note=COMMON_NOTE + "ANTLR's lexer semantics (longest match over all rules, first rule wins ties, a non-greedy sub-rule ends its rule at the first possible end, EOF inside "
              "BLOCK_COMMENT) is modelled by hand; the tie is the per-run comparison with the real lexer on every rendered program, on corrupted renderings and on random strings "
